@@ -7,6 +7,7 @@ import (
 	"flag"
 	"fmt"
 	"hash/fnv"
+	"math/big"
 	"os"
 	"path/filepath"
 	"runtime"
@@ -589,6 +590,28 @@ func Replay(path string) (rf ReplayFile, verr error, err error) {
 	}()
 	verr = p.evalRaw(rf.Case, newRec())
 	return rf, verr, nil
+}
+
+// Responsive measures whether the machine still makes progress: a fixed reference computation (a few hundred
+// field multiplications with math/big) that normally takes well under a millisecond must finish within the limit.
+// It is used after a watchdog fired: "the go-ipa call has been stuck for minutes (>= 1000x its normal cost) while an
+// independent computation in the same process completes at once" is a termination failure, not a slow machine.
+func Responsive(limit time.Duration) bool {
+	done := make(chan struct{})
+	go func() {
+		x := big.NewInt(3)
+		for i := 0; i < 400; i++ {
+			x.Mul(x, x)
+			x.Mod(x, ref.R)
+		}
+		close(done)
+	}()
+	select {
+	case <-done:
+		return true
+	case <-time.After(limit):
+		return false
+	}
 }
 
 // Sharded reports whether enumeration position i belongs to this shard.
